@@ -266,7 +266,7 @@ def rule_resample(ctx):
             order_ok = True
     yield ob(R, f, "multipitch.resample_multipitch:sentinel-last", order_ok, "the empty array is appended after the frames (frequencies + [empty])")
     idx = elt.a[1] if elt.op == "sub" else None
-    cast = idx is not None and idx.op == "iter" and idx.a[0].op == "call" and call_name(idx.a[0]) == "astype"
+    cast = idx is not None and idx.op == "iter" and idx.a[0].op == "call" and (call_name(idx.a[0]) == "astype" or (call_name(idx.a[0]) == "np.asarray" and any(k == "dtype" for k, _ in idx.a[0].a[2])))
     yield ob(R, f, "multipitch.resample_multipitch:int-index", cast, "interpolated indices are cast to int before indexing")
     e1 = [r for r in s.returns if r.term.op == "list" and not r.term.a]
     e2 = [r for r in s.returns if r.term.op == "bin" and r.term.a[0] == "*"]
